@@ -503,5 +503,13 @@ pub fn run(e: &Engine) {
 
 pub fn replay(_sub: &str, case: &Value) -> Option<CheckResult> {
     let mut rec = Rec::new(0);
-    Some(crate::engine::guarded(|| check(&Case::from_json(case).ok_or_else(bad)?, &mut rec)))
+    // outcomes may depend on how the workers interleave: the saved case is run up to 30 times
+    // and the first failure is reported
+    Some(crate::engine::guarded(|| {
+        let c = Case::from_json(case).ok_or_else(bad)?;
+        for _ in 0..30 {
+            check(&c, &mut rec)?;
+        }
+        Ok(())
+    }))
 }
